@@ -836,6 +836,11 @@ func (f *Frame) callWrites(c *ssa.CallCommon) ([]string, bool) {
 			if ct := f.p.funcTypeContract(c.Value.Type()); ct != nil && ct.Pure {
 				return nil, false
 			}
+			if ts, _, ok := f.dynTargets(c); ok {
+				if ct := f.p.contractFor(ts[0]); ct != nil {
+					return f.modifiesComps(ct, ts[0], c.Signature())
+				}
+			}
 			return nil, true
 		}
 	}
@@ -1031,6 +1036,9 @@ func (f *Frame) dynamicCall(c *ssa.CallCommon, pos token.Pos) []Val {
 			args = append(args, f.val(a))
 		}
 		return f.applyFuncTypeContract(ct, args, c, pos)
+	}
+	if r, ok := f.tryDynTargets(c, fv, pos); ok {
+		return r
 	}
 	vc.noteUncontracted("dynamic call " + c.Value.Type().String())
 	f.havocAllExceptLocals()
